@@ -345,3 +345,62 @@ QUERIES = [
     {"name": "Q8d", "fn": q8d, "shards": [{}], "timeout": 300, "bound": "0..5 tracked ids, batch size 1..3 (symbolic); the shipped default 1024 is the same code path"},
     {"name": "Q8e", "fn": q8e, "shards": [{}], "timeout": 300, "bound": "pool restarted or not; a task of another target with the same / another id in 3 states"},
 ]
+
+
+# ---------------------------------------------------------------- Q8f after a run that was cut short, every accepted job is still its target's job
+def _q8f(kfault, kind, be_i, s_after):
+    """`gwf run` on a chain of 3; the kfault-th submission fails (3 ways), so the run stops with some jobs accepted.
+    The accepted jobs then move on (pending / running, symbolic).  `gwf status` must show each target whose job
+    was accepted in the state of that job, and the others by their files."""
+    from vf.world.proj import Project
+    from vf.oracles import plan as P
+    if not (q.in_range(kfault, 3) and q.in_range(kind, 3) and q.in_range(be_i, 3) and q.in_range(s_after, 2)):
+        return q.SKIP
+    be = q.pick(["slurm", "sge", "lsf"], be_i)
+    if "be" in q.SHARD and be != q.SHARD["be"]:
+        return q.SKIP
+    kf, kd = q.pick([2, 3, 0], kfault), q.pick([0, 1, 2], kind)     # the 2nd or 3rd submission fails, or none
+    st = q.pick(["pending", "running"], s_after)
+    with q.notrace():
+        pr = Project("chain3", be)
+        pr.add_sources(5)
+        w = pr.w
+        if kf:
+            w.sim.fault_only = ({"slurm": "sbatch", "sge": "qsub", "lsf": "bsub"}[be],)
+            w.sim.fault_at = kf
+            w.sim.fault_kind = kd
+        w.install()
+    try:
+        try:
+            w.run()
+        except Exception:
+            pass
+        w.sim.fault_at = None
+        jobs = abst.jobs_by_cmd(w)
+        accepted = {j["name"]: j["id"] for j in jobs}
+        for k, j in enumerate(jobs):
+            abst.set_state(w, j["id"], st if k == 0 else "pending")
+        table = w.status_table()
+        for i, nm in enumerate(pr.names):
+            if nm in accepted:
+                want = ("running" if st == "running" else "submitted") if nm == jobs[0]["name"] else "submitted"
+            else:
+                want = "shouldrun"
+            if table.get(nm) != want:
+                return "the %s submission failed (kind %d); accepted jobs %s; status shows %s as %s, expected %s" % (
+                    ["", "", "2nd", "3rd"][kf] if kf else "no", kd, accepted, nm, table.get(nm), want)
+        return ""
+    finally:
+        w.uninstall()
+
+
+def q8f(kfault: int, kind: int, be_i: int, s_after: int) -> str:
+    """
+    post: _ == ""
+    """
+    return q.run(_q8f, (kfault, kind, be_i, s_after))
+
+
+QUERIES.append(
+    {"name": "Q8f", "fn": q8f, "shards": [{"be": b} for b in ("slurm", "sge", "lsf")], "timeout": 600,
+     "bound": "chain of 3; the 2nd or 3rd submission of a run fails in one of 3 ways (or none); the accepted jobs are then pending / running; the next `gwf status` shows every target in the state of its own accepted job"})
